@@ -17,7 +17,7 @@ SHIFTS = [0.0, 2 * np.pi, -2 * np.pi, 4 * np.pi]
 
 
 def points(tier):
-    L = 4 if tier == "quick" else 5  # vertex lattice of level L = corners+midpoints+centres of level L-1
+    L = 4 if tier == "quick" else 6  # vertex lattice of level L = corners+midpoints+centres of level L-1
     c, _ = tg.tiles_at(L, False)
     n = 2**L
     pts = {}
@@ -121,7 +121,11 @@ def _work(job):
     depths = list(range(0, 7)) if tier == "quick" else list(range(0, 9))
     pix = [1, 3, 6]
     for k, (kind, lon, lat) in enumerate(pts):
-        check_point(kind, lon, lat, depths, pix if (tier == "thorough" or k % 2 == 0) else [3], planetary, part)
+        if tier == "thorough":
+            pd = pix if k % 4 == 0 else []
+        else:
+            pd = pix if k % 2 == 0 else [3]
+        check_point(kind, lon, lat, depths, pd, planetary, part)
         if k == 3:
             part.sample({"lon": lon, "lat": lat, "kind": kind, "coordsys": "planetary" if planetary else "astronomical", "depths": depths})
     return part
@@ -133,7 +137,7 @@ def run(tier, seed):
         "every vertex of the level-%d TOAST lattice (corners, edge midpoints, centres of coarser tiles: edges, diamond, seam, poles) + a 24x13 "
         "grid + near-pole/seam points, each at 4 longitude shifts, depths 0..%d, both coordinate systems; pixel clause at depths 1,3,6 for "
         "points >= 1 degree from the poles; non-trivial = lattice/edge point or shifted longitude"
-        % (4 if tier == "quick" else 5, 6 if tier == "quick" else 8)
+        % (4 if tier == "quick" else 6, 6 if tier == "quick" else 8)
     )
     rep.assumptions = ["points within 1e-9 of a shared edge may resolve to either adjacent tile", "continuum between lattice points is not covered"]
     pts = rng_order(points(tier), seed)
